@@ -29,7 +29,10 @@ RULE = ("Pauli lists on 0-8 qubits with all four phases; arbitrary index subsets
 ASSUMPTIONS = ["Qiskit PauliList label order (little endian) and group-phase convention are undone by the adapter",
                "qubit identity (Python object identity of Qubit) is modelled by integer tokens"]
 PH = ["", "-i", "-", "i"]
-LABELS = ["A", "part7", 1007, (1, 2), "xyz", -3, 2.5, frozenset([1])]
+LABELS = ["A", "part7", 1007, (1, 2), "xyz", -3, 2.5, frozenset([1]),
+          # appended (indices of the earlier entries unchanged): labels that are falsy or `None` — all legal hashable labels
+          None, "", True, 0.0, ()]
+_OLD_LABELS = 8   # random cases keep sampling from the first eight entries (their generator stream is unchanged)
 
 
 def _plist(obs, n):
@@ -106,8 +109,30 @@ def _rand_seq_cases(rng, tier):
                                                 len(la) if target == "result" else n, rng.randrange(len(obs)))})
 
 
+def _odd_label_cases():
+    """partitions labelled with `None` and with falsy labels (empty string, 0.0, empty tuple, True): every label is a partition of its own"""
+    import random
+    r = random.Random(1712)
+    odd = [LABELS.index(x) for x in (None, "", True, 0.0, ())] if False else [8, 9, 10, 11, 12]
+    for t in range(14):
+        n = r.randint(2, 7)
+        obs = _rand_obs(r, n, r.randint(1, 3))
+        k = r.randint(1, 3)
+        pool_idx = r.sample(odd, min(k, len(odd))) + r.sample(range(_OLD_LABELS), r.randint(0, 2))
+        if t < 6 and 8 not in pool_idx:
+            pool_idx[0] = 8   # `None` present
+        labels = [r.randrange(len(pool_idx)) for _ in range(n)]
+        for j in range(len(pool_idx)):   # every label used at least once where possible
+            if j < n:
+                labels[j] = j
+        r.shuffle(labels)
+        yield ("decompose", {"n": n, "obs": obs, "labels": labels, "pool": [repr(LABELS[i]) for i in pool_idx], "pool_idx": pool_idx,
+                             "always_oracle": True})
+
+
 def cases(rng, tier):
     yield from _seq_cases()
+    yield from _odd_label_cases()
     yield from _main_cases(rng, tier)
     yield from _rand_seq_cases(rng, tier)   # after all other cases: their generator stream is unchanged
 
@@ -124,13 +149,13 @@ def _main_cases(rng, tier):
     for k_ in range(N):
         n = rng.randint(1, 8)
         obs = _rand_obs(rng, n, rng.randint(1, 4))
-        pool = rng.sample(LABELS, rng.randint(1, 4))
+        pool = rng.sample(LABELS[:_OLD_LABELS], rng.randint(1, 4))
         labels = [rng.randrange(len(pool)) for _ in range(n)]
         if k_ % 6 == 0:
             # more than eight qubits, contiguous blocks: a small partition at high indices
             n = rng.randint(9, 14)
             obs = _rand_obs(rng, n, rng.randint(1, 3))
-            pool = rng.sample(LABELS, 2)
+            pool = rng.sample(LABELS[:_OLD_LABELS], 2)
             cut = rng.randint(6, n - 1)
             labels = [0] * cut + [1] * (n - cut)
             if rng.random() < 0.3:
